@@ -695,6 +695,11 @@ func TestVerifC12(t *testing.T) {
 				continue
 			}
 			width := map[string]int{"int8": 8, "uint8": -8, "int16": 16, "uint32": -32}[sl.typ]
+			// the recurrence is a statement about the evaluations of ONE loop header: the one the
+			// counter's phi sits in (the IR prints it as the @bN tag of the text)
+			if rec.Loop != nil && rec.Loop.Header != nil && rec.Loop.Header != phi.Block() {
+				r.Violate("iv-loop/"+f.key, fmt.Sprintf("%s: the canonical IR describes %s, a counter of the loop headed by block %d, as a recurrence {%s, +, %s} of the loop headed by block %d\n--- source ---\n%s", f.key, phi.Comment, phi.Block().Index, rec.Start.String(), rec.Step.String(), rec.Loop.Header.Index, f.plain), map[string]interface{}{"loop": f.key})
+			}
 			st, ok1 := c12Expr(rec.Start)
 			sp, ok2 := c12Expr(rec.Step)
 			if !ok1 || !ok2 {
